@@ -611,4 +611,13 @@ func init() {
 		Variant{Name: "benign: same patch seen by C03", Property: "C03", File: "seeded-benign/C01-entry-inside-loop-before-handover.diff", Benign: true,
 			Patch: "seeded-benign/C01-entry-inside-loop-before-handover.diff"},
 	)
+	// ---- swallowed errors and retained state (general rules)
+	addVariants(
+		Variant{Name: "blob repair error logged and dropped", Property: "C17", File: refl,
+			Old: "\t\t\tlogger.Error(\"failed to repair invalid utf-8 in history event blob\", tag.Error(err))\n\t\t\tmetrics.TranslationErrors.WithLabelValues(metrics.UTF8RepairTranslationKind, metrics.HistoryBlobMessageType).Inc()\n\t\t\treturn blob, matched, changed, err\n", New: "\t\t\tlogger.Error(\"failed to repair invalid utf-8 in history event blob\", tag.Error(err))\n\t\t\tmetrics.TranslationErrors.WithLabelValues(metrics.UTF8RepairTranslationKind, metrics.HistoryBlobMessageType).Inc()\n\t\t\treturn blob, matched, changed, nil\n", Expect: "O17.8"},
+		Variant{Name: "mux provider treats a failed session setup as done", Property: "C19", File: "transport/mux/receiver.go",
+			Old: "\t\ttlsConfig, err := encryption.GetServerTLSConfig(tlsCfg, logger)\n\t\tif err != nil {\n\t\t\treturn nil, err\n\t\t}\n", New: "\t\ttlsConfig, err := encryption.GetServerTLSConfig(tlsCfg, logger)\n\t\tif err != nil {\n\t\t\treturn nil, nil\n\t\t}\n", Expect: "O19.8"},
+		Variant{Name: "access-control interceptor remembers refused methods", Property: "C15", File: "seeded/C15-d/patch.diff", Expect: "O15.7",
+			Patch: "seeded/C15-d/patch.diff"},
+	)
 }
